@@ -1,7 +1,7 @@
 """C20: results do not depend on the build profile; overflow is never silent.
 
 R-PROFILE  every profile-dependent check site (overflow assert, inherit-overflow core call, debug_assert) reached by the
-           cells of C01-C05, C08, C10, C14-C16 must have an infeasible failure edge in every cell; a feasible one means
+           cells of C01-C06, C08-C10, C14-C16 must have an infeasible failure edge in every cell; a feasible one means
            "panics in dev, continues with a wrapped value in release".  Sites never reached by those cells must be in the
            audited table below (functions whose properties are not decided by this machinery).
 R-CONFIG-DIFF  the MIR of every function is identical between the default and the `packed` configuration.
@@ -13,22 +13,15 @@ from ..harness import get_db, map_jobs, SCALES_ALL, SCALES_QUICK
 from ..db import INT_TYPES9, span_str, DB
 from ..rules import profile
 from .. import mir
-from . import c01, c02, c03, c04, c05, c08, c10, c14, c15, c16
+from . import c01, c02, c03, c04, c05, c06, c08, c09, c10, c14, c15, c16
 
-MODS = {'c01': c01, 'c02': c02, 'c03': c03, 'c04': c04, 'c05': c05, 'c08': c08, 'c10': c10, 'c14': c14, 'c15': c15, 'c16': c16}
+MODS = {'c01': c01, 'c02': c02, 'c03': c03, 'c04': c04, 'c05': c05, 'c06': c06, 'c08': c08, 'c09': c09, 'c10': c10, 'c14': c14, 'c15': c15, 'c16': c16}
 
 # functions whose profile-dependent sites are NOT decided here (one line of reason each)
 AUDITED_PREFIXES = [
     ('fpdec::from_float', 'f32/f64 -> Decimal (C13, not applicable to static analysis)'),
     ('fpdec::into_float', 'Decimal -> f32/f64 (C12, not applicable to static analysis)'),
-    ('fpdec_core::parser', 'byte parser: its no-panic clause is C06\'s obligation'),
-    ('fpdec::from_str', 'runtime parsing: C06 / C18'),
-    ('fpdec::as_integer_ratio', 'gcd loop (C09: the gcd itself is not decided)'),
     ('fpdec::format', 'formatting (C11 clause; digit strings not decided)'),
-    ('fpdec_core::u128_mul_u128', 'contract U (unsigned 256-bit kernel, assumed)'),
-    ('fpdec_core::u256_idiv_u', 'contract U (unsigned 256-bit kernel, assumed)'),
-    ('fpdec_core::u128_msb', 'contract U (helper of the 256-bit division)'),
-    ('fpdec_core::u128_hi', 'contract U'), ('fpdec_core::u128_lo', 'contract U'),
     ('fpdec::{impl#0}::new_raw', 'debug_assert on the documented precondition n_frac_digits <= 18 of the doc(hidden) constructor'),
     ('fpdec::num_traits', 'feature num-traits: forwarders checked in C15 thorough'),
     ('fpdec_core::powers_of_ten::mul_pow_ten', 'doc(hidden) unchecked helper, no longer called by non-test code of fpdec (tests only)'),
@@ -162,6 +155,16 @@ def job_list(tier):
             for mode in ('RoundHalfEven', 'RoundUp'):
                 jobs.append(('c16', ('W', 'muldiv', 19, mode, True, sx, None, s2)))
                 jobs.append(('c16', ('W', 'shifted', 19, mode, True, sx, s2, None)))
+    # the unsigned kernels (C16 U-KERNEL), the gcd loop and the ratio methods (C09), the parser (C06)
+    jobs = [('c16', j) for j in c16.kernel_jobs(tier, dep=(tier == 'quick'))] + jobs
+    for e in ((1, 2, 18, 38) if tier == 'quick' else range(1, 39)):
+        for xc in ('neg', 'pos'):
+            jobs.append(('c09', ('gcd', e, xc)))
+    for p in sc:
+        for xc in ('neg', 'zero', 'pos'):
+            jobs.append(('c09', (p, xc)))
+    for j in (('helper', 'skip_leading_zeroes'), ('helper', 'accum_coeff'), ('helper', 'accum_exp'), ('root', 'str_to_dec'), ('root', 'from_str')):
+        jobs.append(('c06', j))
     return jobs
 
 
@@ -287,7 +290,7 @@ def run(rep, tier):
     config_diff(rep, db, dbp, 'packed')
     unsafe_rule(rep, db)
     rep.explanation = ('R-PROFILE: the MIR is extracted with overflow checks and debug assertions ON so that every profile-dependent check is materialised; the %d cells of the arithmetic, '
-                       'comparison, rounding, conversion and unary properties are re-run with collectors on: a site passes iff it was reached and its failure edge was infeasible in every '
+                       'comparison, rounding, conversion, unary, wide-kernel (incl. Knuth-D), gcd / ratio and parser proofs are re-run with collectors on: a site passes iff it was reached and its failure edge was infeasible in every '
                        'cell (then the release build, which omits the check, computes the same thing); a feasible failure edge is "dev panics, release wraps". Sites in functions whose '
                        'properties are not decided by this machinery are listed as assumptions. R-CONFIG-DIFF: function bodies are identical MIR under feature packed. R-UNSAFE: unsafe '
                        'operations are confined to the audited parser helpers, so the optimisation level cannot change behaviour (compiler trusted).' % len(jobs))
